@@ -54,6 +54,7 @@ RATIOS = (0.1, 0.3, 0.5, 0.8, 1.0, 1.25, 2.0, 4.0, 10.0)
 GAIN_TOL = 1e-5          # of the input amplitude (DESIGN (d))
 DETREND_RTOL = 1e-9      # x Vandermonde condition number x max|x|
 EXACT_RTOL = 1e-12
+F32_RTOL = 1e-6         # a float32 record legitimately carries float32 rounding (eps 6e-8) through sums and means
 MAX_SINE_N = 400000
 
 
@@ -219,7 +220,7 @@ def _check_detrend(ctx, api, before, after, k, wit):
         ctx.observe('detrend.unparsed-call')
         return
     n = len(x)
-    if x.ndim != 1 or not (0 <= k <= 4) or n < k + 2 or not _finite(x):
+    if x.ndim != 1 or not (0 <= k <= 4) or n < k + 1 or not _finite(x):
         ctx.observe('detrend.out-of-quantifier')
         return
     r = np.asarray(after, dtype=float)
@@ -264,13 +265,25 @@ def _post_remove_poly_method(args, kwargs, result, pre):
 
 def _pre_remove_poly_fn(args, kwargs):
     values = args[0] if args else kwargs['values']
-    return {'values': np.array(values, copy=True), 'dt': None, 'npts': len(values), 'cls': type(values).__name__}
+    return {'values': np.array(values, copy=True), 'dt': None, 'npts': len(values), 'cls': type(values).__name__,
+            'arg_frozen': _freeze(values)}
 
 
 def _post_remove_poly_fn(args, kwargs, result, pre):
     k = _degree(args, kwargs, 1)
+    values = args[0] if args else kwargs['values']
+    CTX.check(_freeze(values) == pre['arg_frozen'], 'detrend.fn.argument-unchanged',
+              lambda: _wit('generic.remove_poly', pre, {'container': type(values).__name__}, poly_fit=k),
+              'generic.remove_poly modified its values argument (%s)' % type(values).__name__)
     _check_detrend(CTX, 'fn', pre['values'], result, k,
                    lambda obs: _wit('generic.remove_poly', pre, obs, poly_fit=k))
+
+
+def _rtol_for(*arrs):
+    for a in arrs:
+        if getattr(a, 'dtype', None) is not None and a.dtype == np.float32:
+            return F32_RTOL
+    return EXACT_RTOL
 
 
 def _check_sum(ctx, clause, fn, sig, pre, addend, call):
@@ -286,12 +299,51 @@ def _check_sum(ctx, clause, fn, sig, pre, addend, call):
     ref = np.array([float(a) + float(b) for a, b in zip(before.tolist(), np.broadcast_to(add, before.shape).tolist())])
     after = np.asarray(sig.values)
     scale = np.abs(before.astype(float)) + np.abs(np.broadcast_to(add, before.shape))
+    rtol = _rtol_for(before, np.asarray(addend), after)
     ok = after.shape == ref.shape and sig.npts == pre['npts'] and sig.dt == pre['dt']
+    atol = 1e-37 if rtol == F32_RTOL else 0.0       # float32 sums underflow below its smallest normal number
     if ok:
-        ok, idx, err, allowed = tol.worst(after, ref, scale=scale, rtol=EXACT_RTOL)
-    ctx.check(ok, clause, lambda: _wit(fn, pre, {'after_head': after[:8], 'expected_head': ref[:8]}, **call),
-              '%s is not the element-wise sum: %s' % (fn, tol.describe(after, ref, scale=scale, rtol=EXACT_RTOL)
-                                                      if after.shape == ref.shape else 'shape %s' % (after.shape,)))
+        ok, idx, err, allowed = tol.worst(after, ref, scale=scale, rtol=rtol, atol=atol)
+    ctx.check(ok, clause, lambda: _wit(fn, pre, {'after_head': after[:8], 'expected_head': ref[:8],
+                                                 'dtypes': [str(before.dtype), str(np.asarray(addend).dtype),
+                                                            str(after.dtype)]}, **call),
+              '%s is not the element-wise sum (%s + %s -> %s): %s'
+              % (fn, before.dtype, np.asarray(addend).dtype, after.dtype,
+                 tol.describe(after, ref, scale=scale, rtol=rtol) if after.shape == ref.shape
+                 else 'shape %s' % (after.shape,)))
+
+
+def _pre_add_arg(name):
+    def pre_f(args, kwargs):
+        pre = _snap(args[0])
+        pre['values_obj'] = args[0].values
+        arg = args[1] if len(args) > 1 else kwargs.get(name)
+        pre['arg'] = arg
+        vals = getattr(arg, 'values', arg) if name == 'new_signal' else arg
+        try:
+            pre['arg_copy'] = np.array(vals, copy=True)
+            pre['arg_frozen'] = (_freeze(vals), getattr(arg, 'dt', None), getattr(arg, 'npts', None)) \
+                if name == 'new_signal' else _freeze(vals)
+        except Exception:
+            pre['arg_copy'] = None
+        return pre
+    return pre_f
+
+
+def _check_arg_pure(ctx, fn, name, sig, pre):
+    """The series / other signal handed to the add is bit-for-bit what it was at call entry (skipped when the caller
+    passed the object itself or its own buffer: then a change of the argument IS the requested change)."""
+    arg = pre.get('arg')
+    if pre.get('arg_copy') is None or arg is sig:
+        return
+    vals = getattr(arg, 'values', arg) if name == 'new_signal' else arg
+    if isinstance(vals, np.ndarray) and isinstance(pre['values_obj'], np.ndarray) and np.shares_memory(vals, pre['values_obj']):
+        ctx.observe('%s.argument-aliases-own-buffer' % fn)
+        return
+    now = (_freeze(vals), getattr(arg, 'dt', None), getattr(arg, 'npts', None)) if name == 'new_signal' else _freeze(vals)
+    ctx.check(now == pre['arg_frozen'], '%s.argument-unchanged' % fn,
+              lambda: _wit(fn, pre, {'container': type(vals).__name__}),
+              '%s modified its %s argument' % (fn, name))
 
 
 def _post_add_constant(args, kwargs, result, pre):
@@ -322,7 +374,8 @@ def _post_add_series(args, kwargs, result, pre):
     if np.ndim(series) != 1:
         CTX.observe('add_series.non-1d')
         return
-    _check_sum(CTX, 'add_series==values+series', 'add_series', args[0], pre, series, call)
+    _check_arg_pure(CTX, 'add_series', 'series', args[0], pre)
+    _check_sum(CTX, 'add_series==values+series', 'add_series', args[0], pre, pre['arg_copy'], call)
 
 
 def _unchanged(sig, pre):
@@ -339,6 +392,7 @@ def _is_spe(e):
 def _exc_add_series(args, kwargs, e, pre):
     series = args[1] if len(args) > 1 else kwargs.get('series')
     call = {'series': series}
+    _check_arg_pure(CTX, 'add_series', 'series', args[0], pre)
     if _expect_series_reject(pre, series):
         CTX.check(_is_spe(e) and _unchanged(args[0], pre), 'add_series.rejects-length-mismatch',
                   lambda: _wit('add_series', pre, {'exception': repr(e), 'unchanged': _unchanged(args[0], pre)}, **call),
@@ -375,12 +429,15 @@ def _post_add_signal(args, kwargs, result, pre):
                       _wit('add_signal', pre, {'mismatch': mm}, **_other_desc(other)),
                       'add_signal accepted an argument with %s mismatch' % mm)
         return
-    _check_sum(CTX, 'add_signal==values+other.values', 'add_signal', args[0], pre, other.values, _other_desc(other))
+    _check_arg_pure(CTX, 'add_signal', 'new_signal', args[0], pre)
+    desc = {'other_values': pre['arg_copy'], 'other_dt': pre['dt'], 'other_cls': type(other).__name__}
+    _check_sum(CTX, 'add_signal==values+other.values', 'add_signal', args[0], pre, pre['arg_copy'], desc)
 
 
 def _exc_add_signal(args, kwargs, e, pre):
     other = args[1] if len(args) > 1 else kwargs.get('new_signal')
     mm = _signal_mismatch(pre, other)
+    _check_arg_pure(CTX, 'add_signal', 'new_signal', args[0], pre)
     if mm is None:
         CTX.violation('add_signal==values+other.values', _wit('add_signal', pre, {'exception': repr(e)},
                                                                **_other_desc(other)),
@@ -415,11 +472,12 @@ def _post_running_average(args, kwargs, result, pre):
         return
     ref = np.array(O.window_means(x.tolist(), int(width)))
     scale = float(np.max(np.abs(x))) if len(x) else 0.0
-    ok, idx, err, allowed = tol.worst(after, ref, scale=scale, rtol=EXACT_RTOL)
+    rtol = _rtol_for(x)
+    ok, idx, err, allowed = tol.worst(after, ref, scale=scale, rtol=rtol)
     ctx.check(ok, 'runavg==mean-of-original-window',
               lambda: _wit('running_average', pre, {'after': after[:50], 'expected': ref[:50], 'err': err}, **call),
               'running_average(%r) on %d %s samples: %s' % (width, len(x), x.dtype,
-                                                           tol.describe(after, ref, scale=scale, rtol=EXACT_RTOL)))
+                                                           tol.describe(after, ref, scale=scale, rtol=rtol)))
 
 
 def install(ctx):
@@ -433,8 +491,8 @@ def install(ctx):
     attach.wrap_method(S, 'butter_pass', _post_butter, pre=_pre_butter)
     attach.wrap_method(S, 'remove_poly', _post_remove_poly_method, pre=_pre_sig)
     attach.wrap_method(S, 'add_constant', _post_add_constant, pre=_pre_sig)
-    attach.wrap_method(S, 'add_series', _post_add_series, pre=_pre_sig, on_exception=_exc_add_series)
-    attach.wrap_method(S, 'add_signal', _post_add_signal, pre=_pre_sig, on_exception=_exc_add_signal)
+    attach.wrap_method(S, 'add_series', _post_add_series, pre=_pre_add_arg('series'), on_exception=_exc_add_series)
+    attach.wrap_method(S, 'add_signal', _post_add_signal, pre=_pre_add_arg('new_signal'), on_exception=_exc_add_signal)
     attach.wrap_method(S, 'running_average', _post_running_average, pre=_pre_sig)
     attach.wrap(eqsig.fns.generic, 'remove_poly', _post_remove_poly_fn, pre=_pre_remove_poly_fn)
     _INSTALLED = True
@@ -465,6 +523,33 @@ def _mk_sig(eqsig, cls, values, dt):
     return (eqsig.AccSignal if cls == 'AccSignal' else eqsig.Signal)(values, dt)
 
 
+FORMS = ('array', 'list', 'tuple', 'view2', 'revview', 'readonly')
+
+
+def _apply_form(x, form):
+    """The same numbers handed over as another container: list / tuple, a non-contiguous every-second-element view,
+    a reversed view of a reversed copy, a read-only array."""
+    x = np.asarray(x)
+    if form in (None, 'array'):
+        return x
+    if form == 'list':
+        return x.tolist()
+    if form == 'tuple':
+        return tuple(x.tolist())
+    if form == 'view2':
+        buf = np.empty(2 * len(x), dtype=x.dtype)
+        buf[::2] = x
+        buf[1::2] = x[::-1]
+        return buf[::2]
+    if form == 'revview':
+        return x[::-1].copy()[::-1]
+    if form == 'readonly':
+        c = x.copy()
+        c.flags.writeable = False
+        return c
+    raise ValueError(form)
+
+
 def _butter_kwargs(p):
     kw = {}
     if p['order'] != 4 or p.get('pass_order', True):
@@ -473,17 +558,30 @@ def _butter_kwargs(p):
         kw['remove_gibbs'] = p['gibbs']
     if p.get('gibbs_extra') is not None and p['gibbs'] is not None:
         kw['gibbs_extra'] = p['gibbs_extra']
+    if p.get('gibbs_range') is not None and p['gibbs'] is not None:
+        kw['gibbs_range'] = p['gibbs_range']
     return kw
+
+
+def _call_butter(sig, cut, p):
+    """cut_off positional, by keyword, or omitted (the documented default (0.1, 15))."""
+    if p.get('no_cut'):
+        return sig.butter_pass(**_butter_kwargs(p))
+    if p.get('cut_kw'):
+        return sig.butter_pass(cut_off=cut, **_butter_kwargs(p))
+    return sig.butter_pass(cut, **_butter_kwargs(p))
 
 
 def case_sine(eqsig, ctx, p):
     """One long sinusoid through butter_pass; the deciding clauses are evaluated by the monitor."""
     x = O.sinusoid(p['n'], p['dt'], p['f'], p['phi'], p['amp'])
-    sig = _mk_sig(eqsig, p.get('cls', 'AccSignal'), x, p['dt'])
+    if p.get('dtype') == 'float32':
+        x = x.astype(np.float32)
+    sig = _mk_sig(eqsig, p.get('cls', 'AccSignal'), _apply_form(x, p.get('form')), p['dt'])
     cut = _mk_cut(p['lo'], p['hi'], p['container'])
     _begin('sine', p, expect='sine')
     try:
-        sig.butter_pass(cut, **_butter_kwargs(p))
+        _call_butter(sig, cut, p)
         ctx.ok(_accept_clause(p['container']))
     except Exception as e:
         ctx.exception(_accept_clause(p['container']), _witness(fn='butter_pass'), e)
@@ -523,13 +621,13 @@ def _filtered(eqsig, p, values, container=None, ctx=None, cut_obj=None):
     """One monitored butter_pass execution; an exception on this in-domain call is recorded under the acceptance
     clause of the cut-off container and re-raised as _Rejected. cut_obj: an existing container object to reuse."""
     cont = container or p['container']
-    sig = _mk_sig(eqsig, p.get('cls', 'AccSignal'), values, p['dt'])
+    sig = _mk_sig(eqsig, p.get('cls', 'AccSignal'), _apply_form(values, p.get('form')), p['dt'])
     cut = cut_obj if cut_obj is not None else _mk_cut(p['lo'], p['hi'], cont)
     if ctx is None:
-        sig.butter_pass(cut, **_butter_kwargs(p))
+        _call_butter(sig, cut, p)
         return np.array(sig.values)
     try:
-        sig.butter_pass(cut, **_butter_kwargs(p))
+        _call_butter(sig, cut, p)
     except Exception as e:
         ctx.exception(_accept_clause(cont), _witness(fn='butter_pass', container=cont), e)
         raise _Rejected()
@@ -545,19 +643,45 @@ def _lin_allowed(p, scale):
     return scale * (1e-9 + 8 * np.finfo(float).eps / (wn * wn))
 
 
+def _padlen(p):
+    """Edge-extension length of the zero-phase filter for this design: 3 * number of transfer-function coefficients."""
+    ft = _ftype(p['lo'], p['hi'])
+    return 3 * (p['order'] * (2 if ft == 'band' else 1) + 1)
+
+
+def _exact_sum(x, y):
+    """x + y in the records' own dtype, or None if it is not exactly representable there."""
+    if x.dtype.kind in 'iu':
+        w = x.astype(np.int64) + y.astype(np.int64)
+        info = np.iinfo(x.dtype)
+        if w.min() < info.min or w.max() > info.max:
+            return None
+        return w.astype(x.dtype)
+    if x.dtype == np.float32:
+        w = x.astype(np.float64) + y.astype(np.float64)
+        return w.astype(np.float32) if np.array_equal(w.astype(np.float32).astype(np.float64), w) else None
+    return x + y
+
+
 def case_linear(eqsig, ctx, p):
-    """Additivity F(x+y) == F(x)+F(y) and homogeneity F(c x) == c F(x) over the WHOLE record."""
-    x, y, c = np.asarray(p['x'], dtype=float), np.asarray(p['y'], dtype=float), p['c']
+    """Additivity F(x+y) == F(x)+F(y) and homogeneity F(c x) == c F(x) over the WHOLE record; x, y and x+y are records
+    of the same dtype (the generator makes the sum exactly representable), c*x is a float64 record."""
+    x, y, c = np.asarray(p['x']), np.asarray(p['y']), p['c']
     ft = _ftype(p['lo'], p['hi'])
     cl_add = 'butter.additive.%s.gibbs-%s' % (ft, gname(p['gibbs']))
     cl_hom = 'butter.homogeneous.%s' % ft
+    xy = _exact_sum(x, y)
+    if xy is None:
+        ctx.observe('linear.sum-not-representable-in-record-dtype')
+        return
+    xf, yf = x.astype(float), y.astype(float)
     _begin('linear', p)
     try:
         try:
             fx = _filtered(eqsig, p, x, ctx=ctx)
             fy = _filtered(eqsig, p, y, ctx=ctx)
-            fxy = _filtered(eqsig, p, x + y, ctx=ctx)
-            fcx = _filtered(eqsig, p, c * x, ctx=ctx)
+            fxy = _filtered(eqsig, p, xy, ctx=ctx)
+            fcx = _filtered(eqsig, p, c * xf, ctx=ctx)
         except _Rejected:
             ctx.observe('linear.relation-not-evaluated-after-exception')
             return
@@ -565,21 +689,24 @@ def case_linear(eqsig, ctx, p):
             ctx.violation(cl_add, _witness(shapes=[list(fx.shape), list(fy.shape), list(fxy.shape)]),
                           'filtered records have different shapes')
             return
-        scale = float(np.max(np.abs(x)) + np.max(np.abs(y)))
-        allowed = _lin_allowed(p, scale)
+
+        f32 = F32_RTOL if x.dtype == np.float32 else 0.0
+        scale = float(np.max(np.abs(xf)) + np.max(np.abs(yf)))
+        allowed = _lin_allowed(p, scale) + f32 * scale
         ok, idx, err, _ = tol.worst(fxy, fx + fy, scale=1.0, rtol=0.0, atol=allowed)
         ctx.check(ok, cl_add,
                   lambda: _witness(err=err, allowed=allowed, at=None if idx is None else int(idx[0]), n=len(x)),
                   'F(x+y) != F(x)+F(y): |diff|=%.3g at sample %s of %d (allowed %.3g; max|x|+max|y|=%.3g); %s lo=%r '
-                  'hi=%r order=%d gibbs=%r dt=%g' % (err, None if idx is None else int(idx[0]), len(x), allowed, scale,
-                                                      ft, p['lo'], p['hi'], p['order'], p['gibbs'], p['dt']))
-        sc2 = abs(c) * float(np.max(np.abs(x)))
-        allowed2 = _lin_allowed(p, sc2)
+                  'hi=%r order=%d gibbs=%r dt=%g dtype=%s form=%s'
+                  % (err, None if idx is None else int(idx[0]), len(x), allowed, scale, ft, p['lo'], p['hi'],
+                     p['order'], p['gibbs'], p['dt'], x.dtype, p.get('form')))
+        sc2 = abs(c) * float(np.max(np.abs(xf)))
+        allowed2 = _lin_allowed(p, sc2) + f32 * sc2
         ok, idx, err, _ = tol.worst(fcx, c * fx, scale=1.0, rtol=0.0, atol=allowed2)
         ctx.check(ok, cl_hom,
                   lambda: _witness(err=err, allowed=allowed2, at=None if idx is None else int(idx[0]), n=len(x)),
-                  'F(c x) != c F(x), c=%r: |diff|=%.3g at sample %s (allowed %.3g); %s gibbs=%r'
-                  % (c, err, None if idx is None else int(idx[0]), allowed2, ft, p['gibbs']))
+                  'F(c x) != c F(x), c=%r: |diff|=%.3g at sample %s (allowed %.3g); %s gibbs=%r dtype=%s'
+                  % (c, err, None if idx is None else int(idx[0]), allowed2, ft, p['gibbs'], x.dtype))
     finally:
         _end()
 
@@ -588,6 +715,7 @@ def case_container(eqsig, ctx, p):
     """tuple / list / ndarray cut-offs are all accepted and give the same record, also when ONE container object is
     reused for several calls (the same signal re-created each time)."""
     x = np.asarray(p['x'], dtype=float)
+    p = dict(p, form=None)
     _begin('container', p)
     try:
         outs = {}
@@ -630,51 +758,65 @@ def case_container(eqsig, ctx, p):
         _end()
 
 
-def case_short(eqsig, ctx, p):
-    """Records not longer than the filtfilt edge padding: outside the quantifier, counted only."""
+def case_short(eqsig, ctx, p, tag='short-record'):
+    """Records not longer than the filtfilt edge padding / undocumented option values: outside the quantifier,
+    counted only."""
     _begin('short', p)
     try:
         with attach.paused():
             try:
-                _filtered(eqsig, p, np.asarray(p['x'], dtype=float))
-                ctx.observe('butter.short-record.accepted')
+                out = _filtered(eqsig, p, np.asarray(p['x'], dtype=float))
+                ctx.observe('butter.%s.accepted%s' % (tag, '' if _finite(out) else '-nonfinite-output'))
             except Exception as e:
-                ctx.observe('butter.short-record.raised-%s' % type(e).__name__)
+                ctx.observe('butter.%s.raised-%s' % (tag, type(e).__name__))
     finally:
         _end()
 
 
 def case_detrend(eqsig, ctx, p):
-    """Method and array function, then the trace relations idempotence / polynomial invariance / agreement."""
+    """Method and array function, then the trace relations idempotence / polynomial invariance / agreement.
+    The record is handed over in the container form p['form'] (list, views, read-only ...)."""
     x = np.asarray(p['x'])
     k = int(p['k'])
     n = len(x)
     poly = O.polynomial(n, p['coefs'])
-    scale = float(np.max(np.abs(x)))
+    xf = x.astype(float)
+    scale = float(np.max(np.abs(xf)))
     cond = O.vander_cond(n, k)
     allowed = DETREND_RTOL * cond * scale
     allowed_p = DETREND_RTOL * cond * (scale + float(np.max(np.abs(poly))))
+    form = p.get('form')
+    if form is None and p.get('fn_container') == 'list':
+        form = 'list'
     _begin('detrend', p)
     try:
         res = {}
         for api in ('method', 'fn'):
             pre = 'detrend.%s.k%d.' % (api, k)
 
-            def run(v):
+            def run(v, frm=form, reuse=None):
+                vv = reuse if reuse is not None else _apply_form(v, frm)
                 if api == 'method':
-                    s = _mk_sig(eqsig, p.get('cls', 'AccSignal'), v, p['dt'])
-                    if p.get('kw'):
+                    s = _mk_sig(eqsig, p.get('cls', 'AccSignal'), vv, p['dt'])
+                    if p.get('noarg') and k == 0:
+                        s.remove_poly()
+                    elif p.get('kw'):
                         s.remove_poly(poly_fit=k)
                     else:
                         s.remove_poly(k)
                     return s
-                vv = v.tolist() if p.get('fn_container') == 'list' else v
+                if p.get('noarg') and k == 0:
+                    return eqsig.fns.generic.remove_poly(vv)
                 if p.get('kw'):
                     return eqsig.fns.generic.remove_poly(vv, poly_fit=k)
                 return eqsig.remove_poly(vv, k) if hasattr(eqsig, 'remove_poly') else eqsig.fns.generic.remove_poly(vv, k)
             try:
-                out = run(x)
+                held = _apply_form(x, form)
+                out = run(x, reuse=held)
                 r1 = np.array(out.values if api == 'method' else out, dtype=float)
+                # the SAME argument object a second time (judged by the monitor against its values at call entry)
+                out_b = run(x, reuse=held)
+                r1b = np.array(out_b.values if api == 'method' else out_b, dtype=float)
                 # idempotence: detrend the detrended series again (the method: same object, second execution)
                 if api == 'method':
                     out.remove_poly(k)
@@ -682,16 +824,20 @@ def case_detrend(eqsig, ctx, p):
                 else:
                     r2 = np.array(eqsig.fns.generic.remove_poly(r1, k), dtype=float)
                 # invariance: add a polynomial of degree <= k first
-                out3 = run(x + poly)
+                out3 = run(xf + poly, frm='array' if form in ('list', 'tuple') else form)
                 r3 = np.array(out3.values if api == 'method' else out3, dtype=float)
             except Exception as e:
                 ctx.exception(pre + 'bestfit-zero', _witness(fn='remove_poly', api=api), e)
                 continue
             res[api] = r1
-            if not (r1.shape == r2.shape == r3.shape == x.shape):
+            if not (r1.shape == r2.shape == r3.shape == r1b.shape == x.shape):
                 ctx.violation(pre + 'idempotent', _witness(api=api, shapes=[list(r1.shape), list(r2.shape), list(r3.shape)]),
                               'detrended series have different shapes')
                 continue
+            ctx.check(np.array_equal(r1, r1b), 'detrend.%s.same-argument-object-twice' % api,
+                      lambda: _witness(api=api, form=form),
+                      'a second call with the same argument object gives another result (max diff %.3g)'
+                      % float(np.max(np.abs(r1 - r1b))))
             e2 = float(np.max(np.abs(r2 - r1)))
             ctx.check(e2 <= allowed, pre + 'idempotent', lambda: _witness(api=api, err=e2, allowed=allowed),
                       'detrending the detrended series again changes it by %.3g (allowed %.3g, max|x|=%.3g, n=%d)'
@@ -716,10 +862,11 @@ class _NotASignal(object):
 
 
 def case_add(eqsig, ctx, p):
-    """add_constant / add_series / add_signal, valid and mismatched; verdicts come from the monitors."""
+    """add_constant / add_series / add_signal, valid and mismatched, own buffer / own object / one argument object
+    for two signals; verdicts come from the monitors."""
     x = np.asarray(p['x'])
-    sig = _mk_sig(eqsig, p.get('cls', 'AccSignal'), x, p['dt'])
-    SPE = eqsig.exceptions.SignalProcessingError
+    sig = _mk_sig(eqsig, p.get('cls', 'AccSignal'), _apply_form(x, p.get('form')), p['dt'])
+    kw = bool(p.get('kw'))
     _begin('add', p)
     try:
         op = p['op']
@@ -729,50 +876,166 @@ def case_add(eqsig, ctx, p):
                 c = np.float64(c)
             elif p.get('c_type') == 'int':
                 c = int(c)
+            elif p.get('c_type') == 'np-int':
+                c = np.int64(int(c))
             try:
-                sig.add_constant(c)
+                sig.add_constant(constant=c) if kw else sig.add_constant(c)
             except Exception as e:
                 ctx.exception('add_constant==values+c', _witness(fn='add_constant'), e)
         elif op == 'series':
-            ser = np.asarray(p['series'])
-            cont = p.get('series_container', 'ndarray')
-            ser = ser.tolist() if cont == 'list' else (tuple(ser.tolist()) if cont == 'tuple' else ser)
-            try:
-                sig.add_series(ser)
-            except SPE:
-                pass            # judged by the monitor (expected or not)
-            except Exception:
-                pass            # judged by the monitor as well (wrong exception type / unexpected)
-        else:
-            ov = np.asarray(p['other_values'])
-            if p.get('other_cls') == 'not-a-signal':
-                other = _NotASignal(ov, p['other_dt'])
-            elif p.get('other_cls') == 'ndarray':
-                other = ov
+            if p.get('alias') == 'self':
+                sers = [sig.values]
             else:
-                other = _mk_sig(eqsig, p.get('other_cls', 'AccSignal'), ov, p['other_dt'])
-            try:
-                sig.add_signal(other)
-            except Exception:
-                pass            # judged by the monitor
+                sers = [_apply_form(np.asarray(p['series']), p.get('series_container', 'array'))]
+            sigs = [sig]
+            if p.get('alias') == 'reuse':       # ONE series object added to two different signals
+                sigs.append(_mk_sig(eqsig, p.get('cls', 'AccSignal'), np.asarray(p['x2']), p['dt']))
+                sers = sers * 2
+            for sg, ser in zip(sigs, sers):
+                try:
+                    sg.add_series(series=ser) if kw else sg.add_series(ser)
+                except Exception:
+                    pass            # judged by the monitor (expected rejection or not, exception type)
+        else:
+            if p.get('alias') == 'self':
+                other = sig
+            else:
+                ov = np.asarray(p['other_values'])
+                if p.get('other_cls') == 'not-a-signal':
+                    other = _NotASignal(ov, p['other_dt'])
+                elif p.get('other_cls') == 'ndarray':
+                    other = ov
+                else:
+                    other = _mk_sig(eqsig, p.get('other_cls', 'AccSignal'), ov, p['other_dt'])
+            sigs = [sig]
+            if p.get('alias') == 'reuse':       # ONE other signal added to two different signals
+                sigs.append(_mk_sig(eqsig, p.get('cls', 'AccSignal'), np.asarray(p['x2']), p['dt']))
+            for sg in sigs:
+                try:
+                    sg.add_signal(new_signal=other) if kw else sg.add_signal(other)
+                except Exception:
+                    pass            # judged by the monitor
     finally:
         _end()
 
 
 def case_runavg(eqsig, ctx, p):
     x = np.asarray(p['x'])
-    sig = _mk_sig(eqsig, p.get('cls', 'AccSignal'), x, p['dt'])
+    sig = _mk_sig(eqsig, p.get('cls', 'AccSignal'), _apply_form(x, p.get('form')), p['dt'])
     _begin('runavg', p)
     try:
         w = p['width']
         if p.get('w_type') == 'np':
             w = np.int64(w)
-        if p.get('kw'):
+        elif p.get('w_type') == 'float':
+            w = float(w)
+        if p.get('noarg') and int(p['width']) == 1:
+            sig.running_average()
+        elif p.get('kw'):
             sig.running_average(width=w)
         else:
             sig.running_average(w)
     except Exception as e:
         ctx.exception('runavg==mean-of-original-window', _witness(fn='running_average'), e)
+    finally:
+        _end()
+
+
+def _apply_op(eqsig, sig, op):
+    """One public call of a history / state case on sig. Returns nothing; exceptions propagate."""
+    kind = op['op']
+    if kind == 'butter':
+        _call_butter(sig, _mk_cut(op['lo'], op['hi'], op.get('container', 'tuple')), op)
+    elif kind == 'poly':
+        sig.remove_poly(op['k'])
+    elif kind == 'const':
+        sig.add_constant(op['c'])
+    elif kind == 'series':
+        sig.add_series(np.asarray(op['series']))
+    elif kind == 'signal':
+        sig.add_signal(_mk_sig(eqsig, op.get('other_cls', 'Signal'), np.asarray(op['series']), sig.dt))
+    elif kind == 'runavg':
+        sig.running_average(op['width'])
+    elif kind == 'reset':
+        sig.reset_values(np.asarray(op['values']))
+    elif kind == 'read':
+        for name in op['names']:
+            try:
+                getattr(sig, name)
+            except Exception as e:   # cached quantities are other properties' business
+                CTX.observe('history.read-%s-raised-%s' % (name, type(e).__name__))
+    else:
+        raise ValueError(kind)
+
+
+def case_history(eqsig, ctx, p):
+    """Several monitored calls on ONE object in random order with repeats, interleaved with reads of cached quantities
+    and resets to other lengths. Every call is judged by the monitors against the values at call entry; in addition
+    the same call on a fresh object built from a copy of those values must give the same record."""
+    sig = _mk_sig(eqsig, p.get('cls', 'AccSignal'), np.asarray(p['x']), p['dt'])
+    for j, op in enumerate(p['ops']):
+        _begin('history', p, call=j)
+        try:
+            if op['op'] in ('read', 'reset'):
+                _apply_op(eqsig, sig, op)
+                continue
+            twin = _mk_sig(eqsig, p.get('cls', 'AccSignal'), np.array(sig.values, copy=True), p['dt'])
+            try:
+                _apply_op(eqsig, twin, op)
+                _apply_op(eqsig, sig, op)
+            except Exception as e:
+                ctx.exception('history.call==same-call-on-fresh-object', _witness(op=op['op']), e)
+                return
+            a, b = np.asarray(sig.values), np.asarray(twin.values)
+            ok = a.shape == b.shape and sig.npts == twin.npts and sig.dt == twin.dt and \
+                tol.close(a, b, scale=float(np.max(np.abs(b))) if b.size else 0.0, rtol=EXACT_RTOL)
+            ctx.check(ok, 'history.call==same-call-on-fresh-object', lambda: _witness(op=op['op']),
+                      'call %d (%s) on the object with a history differs from the same call on a fresh object holding '
+                      'the same values' % (j, op['op']))
+        finally:
+            _end()
+
+
+STATE_OPS = ('butter', 'poly', 'poly-fn', 'runavg', 'series', 'const')
+
+
+def case_state(eqsig, ctx, p):
+    """Two different records of the same shape processed back to back; the FIRST result (the array object handed out)
+    is re-checked after the second call, so is a twin object built from the same caller array, and the caller's
+    arrays themselves."""
+    x, y = np.asarray(p['x']), np.asarray(p['y'])
+    op = p['call']
+    name = op['op']
+    clause = 'state.first-result-unchanged-after-second-call.%s' % name
+    x_in, y_in = _apply_form(x, p.get('form')), _apply_form(y, p.get('form'))
+    fx, fy = _freeze(x_in), _freeze(y_in)
+    _begin('state', p)
+    try:
+        def run(v):
+            if name == 'poly-fn':
+                return None, eqsig.fns.generic.remove_poly(v, op['k'])
+            s = _mk_sig(eqsig, p.get('cls', 'AccSignal'), v, p['dt'])
+            _apply_op(eqsig, s, op)
+            return s, s.values
+        try:
+            twin = _mk_sig(eqsig, p.get('cls', 'AccSignal'), x_in, p['dt'])
+            t0 = np.array(twin.values, copy=True)
+            s1, v1 = run(x_in)
+            c1 = np.array(v1, copy=True)
+            s2, v2 = run(y_in)
+        except Exception as e:
+            ctx.exception(clause, _witness(op=name), e)
+            return
+        same = v1.dtype == c1.dtype and v1.shape == c1.shape and np.array_equal(v1, c1, equal_nan=v1.dtype.kind == 'f')
+        if s1 is not None:
+            same = same and np.array_equal(np.asarray(s1.values), c1, equal_nan=c1.dtype.kind == 'f')
+        ctx.check(same and not np.shares_memory(v1, v2), clause, lambda: _witness(op=name),
+                  'the result of the first %s call changed (or shares memory with the second result) after a second '
+                  'call on another record of the same shape' % name)
+        ctx.check(np.array_equal(np.asarray(twin.values), t0) and twin.npts == len(t0), 'state.twin-object-unchanged',
+                  lambda: _witness(op=name), 'a second object built from the same caller array changed during %s' % name)
+        ctx.check(_freeze(x_in) == fx and _freeze(y_in) == fy, 'state.caller-array-unchanged',
+                  lambda: _witness(op=name), 'the array handed to the constructor / function changed during %s' % name)
     finally:
         _end()
 
@@ -802,6 +1065,7 @@ def case_direct(eqsig, ctx, p):
 
 
 CASES = {'sine': case_sine, 'sine-seq': case_sine_seq, 'linear': case_linear, 'container': case_container,
+         'history': case_history, 'state': case_state,
          'short': case_short,
          'detrend': case_detrend, 'add': case_add, 'runavg': case_runavg, 'direct': case_direct}
 
@@ -859,9 +1123,19 @@ def gen_sine(rng, ftype, gibbs, order, ctx=None):
             container = ['tuple', 'list', 'ndarray'][int(rng.integers(3))]
         else:
             container = ['tuple', 'list'][int(rng.integers(2))]
+        # the filter only sees f*dt: the same design at time steps from 1e-9 to 1e3
+        ts = float(rng.choice([1.0, 1.0, 1e-6, 5e4])) if rng.random() < 0.6 else float(10.0 ** rng.uniform(-6, 4.7))
+        dt, f = dt * ts, f / ts
+        lo = None if lo is None else lo / ts
+        hi = None if hi is None else hi / ts
+        g_extra = int(rng.choice([0, 2])) if (gibbs is not None and n <= 50000 and rng.random() < 0.15) else None
+        g_range = int(rng.choice([1, 7, 200])) if (gibbs is not None and rng.random() < 0.15) else None
         return {'n': n, 'dt': dt, 'f': float(f), 'phi': float(rng.uniform(0, 2 * math.pi)),
-                'amp': float(rng.choice([1.0, 1.0, 0.01, 250.0])), 'lo': lo, 'hi': hi, 'order': int(order),
-                'pass_order': bool(rng.random() < 0.5), 'gibbs': gibbs, 'container': container,
+                'amp': float(rng.choice([1.0, 1.0, 0.01, 250.0, 1e-12, 1e12])), 'lo': lo, 'hi': hi, 'order': int(order),
+                'pass_order': bool(rng.random() < 0.5), 'gibbs': gibbs, 'gibbs_extra': g_extra, 'gibbs_range': g_range,
+                'container': container, 'cut_kw': bool(rng.random() < 0.3),
+                'dtype': 'float32' if rng.random() < 0.15 else 'float64',
+                'form': FORMS[int(rng.integers(len(FORMS)))] if (n <= 50000 and rng.random() < 0.3) else 'array',
                 'cls': 'AccSignal' if rng.random() < 0.7 else 'Signal'}
     return None
 
@@ -918,11 +1192,14 @@ def pinned_sines():
                     'pass_order': True, 'gibbs': 'mid', 'container': 'ndarray', 'cls': 'AccSignal'})
     for f in (0.05, 0.1, 1.0, 15.0, 30.0):     # the default cut-off (0.1, 15) at the default order
         out.append({'n': 60000, 'dt': 0.01, 'f': f, 'phi': 0.0, 'amp': 1.0, 'lo': 0.1, 'hi': 15.0, 'order': 4,
-                    'pass_order': False, 'gibbs': None, 'container': 'tuple', 'cls': 'AccSignal'})
+                    'pass_order': False, 'gibbs': None, 'container': 'tuple', 'cls': 'AccSignal',
+                    'no_cut': f in (0.05, 1.0, 30.0), 'cut_kw': f in (0.1, 15.0)})   # default / keyword cut_off
     return out
 
 
-LIN_N = [30, 40, 64, 100, 128, 333, 1000, 1024, 2048, 4684, 5000]
+LIN_N = [30, 40, 63, 64, 65, 100, 127, 128, 129, 333, 1000, 1023, 1024, 1025, 2048, 4095, 4096, 4097, 4684, 5000]
+LONG_N = [65535, 65537, 70001, 131073]          # past 2**16: a few per quick run
+DTYPES = ['float64', 'float32', 'int64', 'int32', 'int16', 'int8', 'uint8', 'uint16']
 
 
 def _two_records(rng, n):
@@ -934,8 +1211,81 @@ def _two_records(rng, n):
     return x, cx, y, cy
 
 
+def _decorate(rng, x):
+    """Plateaus at the start / end and the extreme at the first / last sample (checklist line 6)."""
+    n = len(x)
+    tag = ''
+    r = rng.random()
+    if n >= 4 and r < 0.15:
+        m = int(rng.integers(1, max(2, n // 5)))
+        x[:m] = x[m]
+        x[-m:] = x[-m - 1]
+        tag = '+flat-ends'
+    elif r < 0.3:
+        ext = float(np.max(np.abs(x))) * float(rng.uniform(1.5, 5)) if x.dtype.kind == 'f' else None
+        if rng.random() < 0.5:
+            x[0] = ext if ext is not None else (np.max(x) if rng.random() < 0.5 else np.min(x))
+            tag = '+extreme-first'
+        else:
+            x[-1] = -ext if ext is not None else (np.min(x) if rng.random() < 0.5 else np.max(x))
+            tag = '+extreme-last'
+    return x, tag
+
+
+def typed_record(rng, n, dtype, frac=1.0, dyadic=False):
+    """A record of the given dtype. Integers use the fraction frac of the dtype's range (all of it by default, so that
+    sums / differences of neighbours leave the dtype); float32 optionally dyadic so that x+y is exact."""
+    dt_ = np.dtype(dtype)
+    if dt_.kind in 'iu':
+        info = np.iinfo(dt_)
+        lo, hi = (-2 ** 52, 2 ** 52) if dt_.itemsize == 8 else (info.min, info.max)
+        lo, hi = int(lo * frac), int(hi * frac)
+        k = int(rng.integers(3))
+        if k == 0:
+            x = rng.integers(lo, hi + 1, size=n)
+        elif k == 1:     # slow walk with plateaus, clipped to the range
+            x = np.clip(np.cumsum(rng.integers(-(hi - lo) // 16 - 1, (hi - lo) // 16 + 2, size=n)) + (lo + hi) // 2, lo, hi)
+        else:            # mostly the two extremes
+            x = rng.choice(np.array([lo, hi, (lo + hi) // 2]), size=n, p=[0.45, 0.45, 0.1])
+        x = np.asarray(x).astype(dt_)
+        x, tag = _decorate(rng, x)
+        return x, '%s%s' % (dt_.name, tag)
+    if dt_ == np.float32:
+        if dyadic:
+            x = (rng.integers(-2 ** 11, 2 ** 11, size=n) / 64.0).astype(np.float32)
+            return x, 'float32-dyadic'
+        x, cls = gen.record(rng, n, allow_const=False)
+        x, tag = _decorate(rng, x.astype(np.float32))
+        return x, 'float32-%s%s' % (cls, tag)
+    x, cls = gen.record(rng, n, allow_const=False)
+    r = rng.random()
+    tag = ''
+    if r < 0.12:
+        x = x / max(float(np.max(np.abs(x))), 1e-300) * 1e-12
+        tag = '+amp1e-12'
+    elif r < 0.18:
+        x = x / max(float(np.max(np.abs(x))), 1e-300) * 1e12
+        tag = '+amp1e12'
+    elif r < 0.24:
+        x = x + float(rng.choice([-1, 1])) * 1e6 * float(np.max(np.abs(x)))
+        tag = '+offset1e6'
+    x, t2 = _decorate(rng, x)
+    return x, cls + tag + t2
+
+
+def _pick_dtype(rng, p64=0.55):
+    return 'float64' if rng.random() < p64 else DTYPES[int(rng.integers(1, len(DTYPES)))]
+
+
+def _wide_dt(rng):
+    """time steps from 1e-9 to 1e3 (15 %), else the shared generator."""
+    if rng.random() < 0.15:
+        return float(10.0 ** rng.uniform(-9, 3))
+    return min(gen.dt(rng), 0.1)
+
+
 def gen_linear(rng, ftype, gibbs):
-    dt = min(gen.dt(rng), 0.1)
+    dt = _wide_dt(rng)
     nyq = 0.5 / dt
     wn_lo = float(10 ** rng.uniform(-3.0, -0.4)) if rng.random() < 0.85 else float(10 ** rng.uniform(-3.7, -3.0))
     if ftype == 'band':
@@ -945,22 +1295,52 @@ def gen_linear(rng, ftype, gibbs):
         lo, hi = None, min(wn_lo * 3, 0.9) * nyq
     else:
         lo, hi = min(wn_lo * 3, 0.9) * nyq, None
-    n = int(LIN_N[int(rng.integers(len(LIN_N)))])
-    x, cx, y, cy = _two_records(rng, n)
+    order = int(rng.integers(1, 5))
+    r = rng.random()
+    if gibbs is None and r < 0.1:
+        n = 3 * (order * (2 if ftype == 'band' else 1) + 1) + 1 + int(rng.integers(0, 2))   # minimal accepted length
+    elif r < 0.125:
+        n = int(LONG_N[int(rng.integers(len(LONG_N)))])
+    else:
+        n = int(LIN_N[int(rng.integers(len(LIN_N)))])
+    dtype = _pick_dtype(rng)
+    if dtype == 'float64':
+        x, cx = typed_record(rng, n, dtype)
+        for _ in range(10):
+            y, cy = typed_record(rng, n, dtype)
+            if cy.split('+')[0] != cx.split('+')[0]:
+                break
+    else:
+        x, cx = typed_record(rng, n, dtype, frac=0.5, dyadic=True)
+        y, cy = typed_record(rng, n, dtype, frac=0.5, dyadic=True)
+        if np.dtype(dtype).kind == 'i' and np.dtype(dtype).itemsize < 8:   # -128//2 + -128//2 fits, keep it simple
+            pass
     c = float(rng.choice([2.0, -0.5, 1024.0])) if rng.random() < 0.4 else float(rng.normal() * 10 ** rng.uniform(-2, 2))
     if c == 0.0:
         c = 3.0
+    # micro / mega amplitudes: scale across the decades where an absolute epsilon (np.isclose, 1e-8) would switch
+    if 'amp1e-12' in cx and rng.random() < 0.7:
+        c = float(rng.choice([1e6, 1e9, 1e12, -1e10]))
+    elif 'amp1e12' in cx and rng.random() < 0.7:
+        c = float(rng.choice([1e-6, 1e-12, -1e-20]))
     cont = ['tuple', 'list', 'ndarray'][int(rng.integers(3))] if ftype == 'band' else ['tuple', 'list'][int(rng.integers(2))]
-    return {'x': x, 'y': y, 'c': c, 'dt': float(dt), 'lo': lo, 'hi': hi, 'order': int(rng.integers(1, 5)),
-            'pass_order': bool(rng.random() < 0.5), 'gibbs': gibbs,
-            'gibbs_extra': (2 if (gibbs is not None and rng.random() < 0.1) else None), 'container': cont,
-            'cls': 'AccSignal' if rng.random() < 0.5 else 'Signal', 'classes': [cx, cy]}
+    g_extra = g_range = None
+    if gibbs is not None and rng.random() < 0.25:
+        g_extra = int(rng.choice([0, 2, 3] if n <= 5000 else [0]))
+    if gibbs is not None and rng.random() < 0.25:
+        g_range = int(rng.choice([1, 7, n, 4 * n]))
+    return {'x': x, 'y': y, 'c': c, 'dt': float(dt), 'lo': lo, 'hi': hi, 'order': order,
+            'pass_order': bool(rng.random() < 0.5), 'gibbs': gibbs, 'gibbs_extra': g_extra, 'gibbs_range': g_range,
+            'container': cont, 'cut_kw': bool(rng.random() < 0.3), 'form': FORMS[int(rng.integers(len(FORMS)))]
+            if rng.random() < 0.5 else 'array', 'cls': 'AccSignal' if rng.random() < 0.5 else 'Signal', 'classes': [cx, cy]}
 
 
 def gen_container(rng, ftype):
     p = gen_linear(rng, ftype, GIBBS[int(rng.integers(4))])
-    q = {k: p[k] for k in ('dt', 'lo', 'hi', 'order', 'pass_order', 'gibbs', 'gibbs_extra', 'cls')}
-    q['x'] = p['x']
+    q = {k: p[k] for k in ('dt', 'lo', 'hi', 'order', 'pass_order', 'gibbs', 'gibbs_extra', 'gibbs_range', 'cls', 'cut_kw')}
+    q['x'] = np.asarray(p['x'], dtype=float)[:5000]
+    if len(q['x']) < 30:
+        q['gibbs'] = None
     q['container'] = 'tuple'
     q['reps'] = int(rng.integers(2, 5))
     if ftype == 'band':
@@ -969,8 +1349,9 @@ def gen_container(rng, ftype):
             nyq = 0.5 / q['dt']
             lo = float(max(1, int(0.02 * nyq)))
             hi = float(max(lo + 1, int(0.5 * nyq)))
-            q['lo'], q['hi'] = lo, hi
-            q['containers'] = ['tuple', 'list', 'ndarray', 'ndarray-int']
+            if hi < 0.9 * nyq:
+                q['lo'], q['hi'] = lo, hi
+                q['containers'] = ['tuple', 'list', 'ndarray', 'ndarray-int']
     else:
         q['containers'] = ['tuple', 'list']
     return q
@@ -980,61 +1361,102 @@ DETREND_N = [8, 9, 10, 13, 16, 33, 64, 100, 200, 500, 1000, 1999, 2000]
 
 
 def gen_detrend(rng, k):
-    n = int(DETREND_N[int(rng.integers(len(DETREND_N)))])
-    cls = ['noise', 'walk', 'quake', 'sine', 'intnoise', 'plateau', 'step', 'ramp'][int(rng.integers(8))]
-    if cls == 'ramp':
-        t = np.arange(n) / (n - 1.0)
-        x = rng.normal(size=n) * 0.05 + float(rng.choice([-1, 1])) * t ** int(rng.integers(1, 6)) * rng.uniform(1, 5)
-        x = x * 10.0 ** rng.uniform(-2, 2)
+    r = rng.random()
+    if r < 0.15:
+        n = k + 1 + int(rng.integers(0, 3))          # minimal lengths: k+1 (exact interpolation), k+2, k+3
     else:
-        x, _ = gen.record(rng, n, cls=cls)
-    as_int = cls in ('intnoise', 'plateau') and np.all(x == np.round(x)) and np.max(np.abs(x)) < 1e6 and rng.random() < 0.6
+        n = int(DETREND_N[int(rng.integers(len(DETREND_N)))])
+    dtype = _pick_dtype(rng)
     spike = ''
-    if rng.random() < 0.25:
-        x = x.copy()
-        x[0] = x[0] + (np.round(10 * np.std(x)) + 1 if as_int else rng.uniform(3, 30) * np.std(x)) * float(rng.choice([-1, 1]))
-        spike = '+startspike'
-    # the last sample must differ strongly from the mean: an end spike of 5..50 standard deviations is added unless
-    # the record already ends >= 3 standard deviations away (walks, ramps, steps)
-    sd = float(np.std(x))
-    if abs(x[-1] - np.mean(x)) < 3 * sd or sd == 0.0:
-        mag = max(sd, 1e-3 * float(np.max(np.abs(x))), 1e-12) * rng.uniform(5, 50)
-        if as_int:
-            mag = float(np.ceil(mag)) + 1
-        x = x.copy()
-        x[-1] = (np.round(np.mean(x)) if as_int else np.mean(x)) + float(rng.choice([-1, 1])) * mag
-        spike += '+endspike'
-    if as_int:
-        x = x.astype(np.int64)
-    amp = float(np.max(np.abs(x)))
+    if dtype != 'float64':
+        x, cls = typed_record(rng, n, dtype, frac=0.3 if np.dtype(dtype).kind in 'iu' else 1.0)
+        if np.dtype(dtype).kind in 'iu':         # the last sample at the end of the dtype's range
+            info = np.iinfo(dtype)
+            top = 2 ** 52 if np.dtype(dtype).itemsize == 8 else info.max
+            bot = -2 ** 52 if np.dtype(dtype).itemsize == 8 else info.min
+            x[-1] = top if (rng.random() < 0.5 or bot == 0) else bot
+            spike = '+endspike'
+        else:
+            x[-1] = np.float32(np.mean(x) + float(rng.choice([-1, 1])) * rng.uniform(5, 50) * max(float(np.std(x)), 1e-3))
+            spike = '+endspike'
+    else:
+        cls = ['noise', 'walk', 'quake', 'sine', 'intnoise', 'plateau', 'step', 'ramp'][int(rng.integers(8))]
+        if cls == 'ramp':
+            t = np.arange(n) / max(n - 1.0, 1.0)
+            x = rng.normal(size=n) * 0.05 + float(rng.choice([-1, 1])) * t ** int(rng.integers(1, 6)) * rng.uniform(1, 5)
+            x = x * 10.0 ** rng.uniform(-2, 2)
+        else:
+            x, _ = gen.record(rng, n, cls=cls)
+        if rng.random() < 0.25:
+            x = x.copy()
+            x[0] = x[0] + rng.uniform(3, 30) * np.std(x) * float(rng.choice([-1, 1]))
+            spike = '+startspike'
+        # the last sample must differ strongly from the mean: an end spike of 5..50 standard deviations is added
+        # unless the record already ends >= 3 standard deviations away (walks, ramps, steps)
+        sd = float(np.std(x))
+        if abs(x[-1] - np.mean(x)) < 3 * sd or sd == 0.0:
+            mag = max(sd, 1e-3 * float(np.max(np.abs(x))), 1e-12) * rng.uniform(5, 50)
+            x = x.copy()
+            x[-1] = np.mean(x) + float(rng.choice([-1, 1])) * mag
+            spike += '+endspike'
+        r2 = rng.random()
+        if r2 < 0.08:
+            x = x / float(np.max(np.abs(x))) * 1e-12
+            spike += '+amp1e-12'
+        elif r2 < 0.16:
+            x = x / float(np.max(np.abs(x))) * 1e12
+            spike += '+amp1e12'
+        elif r2 < 0.24:
+            x = x + 1e6 * float(np.max(np.abs(x))) * float(rng.choice([-1, 1]))
+            spike += '+offset1e6'
+    amp = max(float(np.max(np.abs(x.astype(float)))), 1e-300)
     coefs = (rng.normal(size=k + 1) * amp * 10.0 ** rng.uniform(-1, 3)).tolist()
-    return {'x': x, 'k': int(k), 'dt': float(gen.dt(rng)), 'coefs': coefs, 'kw': bool(rng.random() < 0.3),
-            'cls': 'AccSignal' if rng.random() < 0.5 else 'Signal',
-            'fn_container': 'list' if rng.random() < 0.15 else 'ndarray', 'record_class': cls + spike}
+    return {'x': x, 'k': int(k), 'dt': float(_wide_dt(rng)), 'coefs': coefs, 'kw': bool(rng.random() < 0.3),
+            'noarg': bool(k == 0 and rng.random() < 0.3), 'cls': 'AccSignal' if rng.random() < 0.5 else 'Signal',
+            'form': FORMS[int(rng.integers(len(FORMS)))] if rng.random() < 0.6 else 'array',
+            'record_class': '%s%s' % (cls, spike)}
+
+
+ADD_VARIANTS = ['constant', 'series', 'series-bad', 'signal', 'signal-badlen', 'signal-baddt', 'signal-nonsignal',
+                'series-self', 'signal-self', 'series-reuse', 'signal-reuse']
 
 
 def gen_add(rng, i):
     n = int(rng.choice([1, 2, 3, 8, 50, 200, 1000]))
-    x, cls = gen.record(rng, n)
-    if cls in ('intnoise', 'plateau') and np.all(x == np.round(x)) and rng.random() < 0.5:
-        x = x.astype(np.int64)
-    dt = float(gen.dt(rng))
-    p = {'x': x, 'dt': dt, 'cls': 'AccSignal' if rng.random() < 0.5 else 'Signal'}
-    op = ['constant', 'series', 'series-bad', 'signal', 'signal-badlen', 'signal-baddt', 'signal-nonsignal'][i % 7]
+    x, cls = typed_record(rng, n, _pick_dtype(rng, 0.4))
+    dt = float(_wide_dt(rng))
+    p = {'x': x, 'dt': dt, 'cls': 'AccSignal' if rng.random() < 0.5 else 'Signal', 'kw': bool(rng.random() < 0.3),
+         'form': FORMS[int(rng.integers(len(FORMS)))] if rng.random() < 0.4 else 'array'}
+    op = ADD_VARIANTS[i % len(ADD_VARIANTS)]
     if op == 'constant':
-        p.update(op='constant', c=float(rng.choice([0.0, 1.0, -2.5, 1e-9, 3e7])) if rng.random() < 0.4 else
-                 float(rng.normal() * 10 ** rng.uniform(-3, 3)), c_type=['float', 'np', 'int'][int(rng.integers(3))])
-        if p['c_type'] == 'int':
-            p['c'] = float(int(p['c']))
-    elif op == 'series':
-        y, _ = gen.record(rng, n)
-        p.update(op='series', series=y, series_container=['ndarray', 'list', 'tuple'][int(rng.integers(3))])
+        if x.dtype.kind in 'iu' and rng.random() < 0.6:
+            # integer constants that fit the dtype but not the sum, and ones that do not fit the dtype at all
+            info = np.iinfo(x.dtype)
+            c = float(int(rng.choice([info.max if info.max < 2 ** 52 else 2 ** 52, 1, -1, 100, 1000, 70000])))
+            ctype = ['int', 'np-int'][int(rng.integers(2))]
+        else:
+            c = float(rng.choice([0.0, 1.0, -2.5, 1e-9, 3e7])) if rng.random() < 0.4 else \
+                float(rng.normal() * 10 ** rng.uniform(-3, 3)) * (float(np.max(np.abs(x.astype(float)))) or 1.0) \
+                ** float(rng.choice([0, 1]))
+            ctype = ['float', 'np', 'int'][int(rng.integers(3))]
+            if ctype == 'int':
+                c = float(int(max(min(c, 2.0 ** 60), -2.0 ** 60)))
+        p.update(op='constant', c=c, c_type=ctype)
+    elif op in ('series', 'series-reuse'):
+        y, _ = typed_record(rng, n, _pick_dtype(rng, 0.4))
+        p.update(op='series', series=y, series_container=FORMS[int(rng.integers(len(FORMS)))])
+        if op == 'series-reuse':
+            p.update(alias='reuse', x2=typed_record(rng, n, _pick_dtype(rng, 0.4))[0])
+    elif op == 'series-self':
+        p.update(op='series', alias='self')
     elif op == 'series-bad':
         m = int(rng.choice([max(n - 1, 0), n + 1, 1 if n != 1 else 2, 2 * n, 0]))
         if m == n:
             m = n + 1
         y = rng.normal(size=m)
-        p.update(op='series', series=y, series_container=['ndarray', 'list'][int(rng.integers(2))])
+        p.update(op='series', series=y, series_container=['array', 'list'][int(rng.integers(2))])
+    elif op == 'signal-self':
+        p.update(op='signal', alias='self')
     else:
         m = n
         odt = dt
@@ -1047,32 +1469,100 @@ def gen_add(rng, i):
             odt = dt * float(rng.choice([2.0, 0.5, 1.01, 0.99, 10.0]))
         elif op == 'signal-nonsignal':
             ocls = 'not-a-signal' if rng.random() < 0.5 else 'ndarray'
-        y, _ = gen.record(rng, m)
+        y, _ = typed_record(rng, m, _pick_dtype(rng, 0.4))
         p.update(op='signal', other_values=y, other_dt=odt, other_cls=ocls)
+        if op == 'signal-reuse':
+            p.update(alias='reuse', x2=typed_record(rng, n, _pick_dtype(rng, 0.4))[0])
     p['variant'] = op
+    p['record_class'] = cls
     return p
 
 
 def gen_runavg(rng, i):
-    n = int(rng.choice([1, 2, 3, 4, 5, 7, 10, 24, 25, 26, 50, 100, 200]))
+    n = int(rng.choice([1, 2, 3, 4, 5, 7, 10, 24, 25, 26, 50, 100, 200]))     # includes records shorter than the window
     w = int(rng.integers(1, 26))
-    cls = ['noise', 'intnoise', 'walk', 'impulse', 'step', 'alt', 'plateau', 'quake'][int(rng.integers(8))]
-    x, _ = gen.record(rng, n, cls=cls)
-    if cls in ('intnoise', 'plateau', 'impulse', 'step', 'alt') and np.all(x == np.round(x)) and rng.random() < 0.6:
-        x = x.astype(np.int64)
-    return {'x': x, 'dt': float(gen.dt(rng)), 'width': w, 'w_type': 'np' if rng.random() < 0.2 else 'int',
-            'kw': bool(rng.random() < 0.3), 'cls': 'AccSignal' if rng.random() < 0.5 else 'Signal', 'record_class': cls}
+    if rng.random() < 0.1:
+        w = 1
+    x, cls = typed_record(rng, n, _pick_dtype(rng, 0.45))
+    return {'x': x, 'dt': float(_wide_dt(rng)), 'width': w,
+            'w_type': ['int', 'int', 'int', 'np', 'float'][int(rng.integers(5))], 'kw': bool(rng.random() < 0.3),
+            'noarg': bool(w == 1 and rng.random() < 0.5),
+            'form': FORMS[int(rng.integers(len(FORMS)))] if rng.random() < 0.5 else 'array',
+            'cls': 'AccSignal' if rng.random() < 0.5 else 'Signal', 'record_class': cls}
+
+
+def _gen_op(rng, kind, n, dt):
+    """One call specification for the history / state cases on a record of n samples."""
+    nyq = 0.5 / dt
+    if kind == 'butter':
+        ft = TYPES[int(rng.integers(3))]
+        wn = float(10 ** rng.uniform(-2.3, -0.5))
+        lo, hi = {'band': (wn * nyq, min(wn * 8, 0.9) * nyq), 'low': (None, min(wn * 3, 0.9) * nyq),
+                  'high': (min(wn * 3, 0.9) * nyq, None)}[ft]
+        return {'op': 'butter', 'lo': lo, 'hi': hi, 'order': int(rng.integers(1, 5)), 'pass_order': True,
+                'gibbs': GIBBS[int(rng.integers(4))], 'container': ['tuple', 'list'][int(rng.integers(2))],
+                'cut_kw': bool(rng.random() < 0.3)}
+    if kind in ('poly', 'poly-fn'):
+        return {'op': kind, 'k': int(rng.integers(0, 5))}
+    if kind == 'const':
+        return {'op': 'const', 'c': float(rng.normal() * 10 ** rng.uniform(-2, 2))}
+    if kind in ('series', 'signal'):
+        return {'op': kind, 'series': gen.record(rng, n)[0], 'other_cls': 'AccSignal' if rng.random() < 0.5 else 'Signal'}
+    if kind == 'runavg':
+        return {'op': 'runavg', 'width': int(rng.integers(1, 26))}
+    raise ValueError(kind)
+
+
+HISTORY_READS = ['fa_spectrum', 'fa_frequencies', 'smooth_fa_spectrum', 'velocity', 'displacement', 'pga', 'pgv', 'time']
+
+
+def gen_history(rng):
+    n = int(rng.choice([40, 64, 100, 257, 1000]))
+    dt = float(rng.choice([0.005, 0.01, 0.02]))
+    x, cls = gen.record(rng, n, allow_const=False)
+    ops = []
+    for _ in range(int(rng.integers(5, 11))):
+        kind = ['butter', 'poly', 'const', 'series', 'signal', 'runavg', 'reset', 'read', 'butter', 'poly', 'runavg',
+                'read'][int(rng.integers(12))]
+        if kind == 'reset':
+            m = int(rng.choice([n, n // 2 + 20, 2 * n, 41]))
+            ops.append({'op': 'reset', 'values': gen.record(rng, m, allow_const=False)[0]})
+            n = m
+        elif kind == 'read':
+            k = int(rng.integers(1, 4))
+            ops.append({'op': 'read', 'names': [HISTORY_READS[int(j)] for j in rng.integers(len(HISTORY_READS), size=k)]})
+        else:
+            ops.append(_gen_op(rng, kind, n, dt))
+    return {'x': x, 'dt': dt, 'cls': 'AccSignal' if rng.random() < 0.7 else 'Signal', 'ops': ops, 'record_class': cls}
+
+
+def gen_state(rng, i):
+    kind = STATE_OPS[i % len(STATE_OPS)]
+    n = int(rng.choice([40, 64, 200, 1000]))
+    dt = float(rng.choice([0.005, 0.01, 0.02]))
+    dtype = _pick_dtype(rng, 0.6)
+    x, cx = typed_record(rng, n, dtype)
+    y, cy = typed_record(rng, n, dtype)
+    return {'x': x, 'y': y, 'dt': dt, 'call': _gen_op(rng, kind, n, dt),
+            'form': FORMS[int(rng.integers(len(FORMS)))] if rng.random() < 0.5 else 'array',
+            'cls': 'AccSignal' if rng.random() < 0.5 else 'Signal', 'classes': [cx, cy]}
 
 
 # ------------------------------------------------------------------------------------------------------ workload
 COUNTS = {   # per shard
-    'quick': {'sine': 60, 'sine_seq': 8, 'linear': 48, 'container': 6, 'short': 2, 'detrend': 60, 'add': 84, 'runavg': 60},
-    'thorough': {'sine': 750, 'sine_seq': 100, 'linear': 600, 'container': 60, 'short': 6, 'detrend': 1000, 'add': 1400, 'runavg': 1500},
+    'quick': {'sine': 60, 'sine_seq': 8, 'linear': 60, 'container': 6, 'short': 2, 'detrend': 70, 'add': 110,
+              'runavg': 80, 'history': 10, 'state': 18},
+    'thorough': {'sine': 900, 'sine_seq': 150, 'linear': 1200, 'container': 100, 'short': 6, 'detrend': 2000,
+                 'add': 3300, 'runavg': 3000, 'history': 300, 'state': 600},
 }
 
 
 def _dig(kind, p):
     return core.digest(kind, p)
+
+
+def _short(p):
+    return {k: (v[:6] if isinstance(v, np.ndarray) else v) for k, v in p.items() if k not in ('ops',)}
 
 
 def run_shard(ctx):
@@ -1130,9 +1620,10 @@ def run_shard(ctx):
             break
         t, g = combos[(c + sh) % len(combos)]
         p = gen_linear(rng, t, g)
-        nontriv = bool(np.ptp(p['x']) > 0 and np.ptp(p['y']) > 0 and not np.array_equal(p['x'], p['y']))
-        ctx.case(_dig('linear', p), nontrivial=nontriv, cls='linear-%s-gibbs-%s' % (t, gname(g)),
-                 sample={k: (v[:6] if isinstance(v, np.ndarray) else v) for k, v in p.items()})
+        nontriv = bool(np.ptp(p['x'].astype(float)) > 0 and np.ptp(p['y'].astype(float)) > 0
+                       and not np.array_equal(p['x'], p['y']))
+        ctx.case(_dig('linear', p), nontrivial=nontriv,
+                 cls='linear-%s-gibbs-%s-%s' % (t, gname(g), p['x'].dtype.name), sample=_short(p))
         case_linear(eqsig, ctx, p)
 
     for c in range(cnt['container']):
@@ -1143,9 +1634,14 @@ def run_shard(ctx):
 
     for c in range(cnt['short']):
         p = gen_linear(rng, TYPES[c % 3], GIBBS[int(rng.integers(4))])
-        p['x'] = p['x'][:int(rng.integers(2, 10))]
+        p['x'] = np.asarray(p['x'], dtype=float)[:int(rng.integers(2, 6))]
+        p['form'] = None
         ctx.observe('butter.short-record.probed')
         case_short(eqsig, ctx, p)
+        # an option value that is not documented (gibbs_range = 0: empty start window): counted only
+        q = gen_linear(rng, TYPES[c % 3], 'mid')
+        q.update(x=np.asarray(q['x'], dtype=float)[:2000], gibbs_range=0, gibbs_extra=None, form=None)
+        case_short(eqsig, ctx, q, tag='gibbs_range-0')
 
     # -- detrending: every degree in turn
     for c in range(cnt['detrend']):
@@ -1156,27 +1652,47 @@ def run_shard(ctx):
         p = gen_detrend(rng, k)
         x = np.asarray(p['x'], dtype=float)
         # a single sample cannot lie further than (n-1)/sqrt(n) standard deviations from the mean
-        far = abs(x[-1] - np.mean(x)) >= min(2.5, 0.8 * (len(x) - 1) / math.sqrt(len(x))) * np.std(x)
-        ctx.case(_dig('detrend', p), nontrivial=bool(far and np.ptp(x) > 0), cls='detrend-k%d-%s' % (k, p['record_class']),
-                 sample={'k': k, 'n': len(x), 'class': p['record_class'], 'tail': x[-4:], 'mean': float(np.mean(x))})
+        far = len(x) > 1 and abs(x[-1] - np.mean(x)) >= min(2.5, 0.8 * (len(x) - 1) / math.sqrt(len(x))) * np.std(x)
+        ctx.case(_dig('detrend', p), nontrivial=bool(far and np.ptp(x) > 0),
+                 cls='detrend-k%d-%s' % (k, p['record_class'].split('+')[0]),
+                 sample={'k': k, 'n': len(x), 'class': p['record_class'], 'tail': x[-4:], 'mean': float(np.mean(x)),
+                         'form': p['form'], 'dtype': p['x'].dtype.name})
         case_detrend(eqsig, ctx, p)
 
     # -- adds
     for c in range(cnt['add']):
         p = gen_add(rng, c + sh)
-        ctx.case(_dig('add', p), nontrivial=len(p['x']) > 0, cls='add-%s' % p['variant'])
+        ctx.case(_dig('add', p), nontrivial=len(p['x']) > 0, cls='add-%s-%s' % (p['variant'], p['x'].dtype.name))
         case_add(eqsig, ctx, p)
 
     # -- running average
     for c in range(cnt['runavg']):
         p = gen_runavg(rng, c)
-        ctx.case(_dig('runavg', p), nontrivial=bool(p['width'] >= 2 and len(p['x']) >= 2 and np.ptp(p['x']) > 0),
-                 cls='runavg-%s' % ('int' if np.asarray(p['x']).dtype.kind == 'i' else 'float'),
-                 sample={'n': len(p['x']), 'width': p['width'], 'dtype': str(np.asarray(p['x']).dtype)})
+        xx = np.asarray(p['x'], dtype=float)
+        ctx.case(_dig('runavg', p), nontrivial=bool(p['width'] >= 2 and len(xx) >= 2 and np.ptp(xx) > 0),
+                 cls='runavg-%s%s' % (p['x'].dtype.name, '-shorter-than-window' if len(xx) < p['width'] else ''),
+                 sample={'n': len(xx), 'width': p['width'], 'dtype': p['x'].dtype.name, 'form': p['form']})
         case_runavg(eqsig, ctx, p)
+
+    # -- same-object histories
+    for c in range(cnt['history']):
+        if ctx.out_of_time():
+            ctx.observe('out-of-time.history')
+            break
+        p = gen_history(rng)
+        ctx.case(_dig('history', p), nontrivial=True, cls='history-%d-calls' % len(p['ops']),
+                 sample={'ops': [o['op'] for o in p['ops']], 'n': len(p['x'])})
+        case_history(eqsig, ctx, p)
+
+    # -- process-wide state: two records of one shape back to back, first result re-checked
+    for c in range(cnt['state']):
+        p = gen_state(rng, c + sh)
+        ctx.case(_dig('state', p), nontrivial=not np.array_equal(p['x'], p['y']),
+                 cls='state-%s-%s' % (p['call']['op'], p['x'].dtype.name))
+        case_state(eqsig, ctx, p)
     ctx.note('monitored_calls', dict(attach.CALLS))
     ctx.note('tolerances', {'gain': GAIN_TOL, 'detrend_rtol_x_cond': DETREND_RTOL, 'exact': EXACT_RTOL,
-                            'linear': 'scale*(1e-9 + 8 eps/wn^2)'})
+                            'float32_records': F32_RTOL, 'linear': 'scale*(1e-9 + 8 eps/wn^2)'})
 
 
 def replay(w):
@@ -1200,12 +1716,14 @@ def _min_evals():
         sine = cnt['sine'] * nsh
         lin = cnt['linear'] * nsh
         det = cnt['detrend'] * nsh // 5
-        add = cnt['add'] * nsh // 7
+        add = cnt['add'] * nsh // len(ADD_VARIANTS)
         run = cnt['runavg'] * nsh
+        st = cnt['state'] * nsh
         for c in ('butter.sine.interior==|H|^2*sine', 'butter.sine.gain==|H|^2', 'butter.sine.zero-phase',
                   'butter.sine.same-sinusoid'):
             m[c] = sine // 2
-        for c in ('butter.length-preserved', 'butter.dt-preserved', 'butter.finite-output'):
+        for c in ('butter.length-preserved', 'butter.dt-preserved', 'butter.finite-output',
+                  'butter.cutoff-argument-unchanged'):
             m[c] = (sine + 4 * lin) // 2
         for t in TYPES:
             m['butter.homogeneous.%s' % t] = lin // 6
@@ -1216,25 +1734,34 @@ def _min_evals():
         m['butter.cutoff-container.ndarray-accepted'] = (sine + 4 * lin) // 24
         m['butter.cutoff-container.same-result'] = cnt['container'] * nsh // 2
         m['butter.cutoff-container.reused-object-same-result'] = cnt['container'] * nsh
-        m['butter.cutoff-argument-unchanged'] = (sine + 4 * lin) // 2
         m['butter.sine.reused-cutoff-object-call-judged'] = cnt['sine_seq'] * nsh // 2
         for k in range(5):
             for api in ('method', 'fn'):
                 for c in ('bestfit-zero', 'removed-is-poly', '==lstsq-reference'):
-                    m['detrend.%s.k%d.%s' % (api, k, c)] = 3 * det // 2
+                    m['detrend.%s.k%d.%s' % (api, k, c)] = 2 * det
                 for c in ('idempotent', 'poly-invariant'):
                     m['detrend.%s.k%d.%s' % (api, k, c)] = det // 2
             m['detrend.k%d.method==function' % k] = det // 2
-        m['detrend.method.length+dt-preserved'] = 3 * 5 * det // 2
+        m['detrend.method.length+dt-preserved'] = 4 * 5 * det // 2
+        m['detrend.fn.argument-unchanged'] = 4 * 5 * det // 2
+        m['detrend.method.same-argument-object-twice'] = 5 * det // 2
+        m['detrend.fn.same-argument-object-twice'] = 5 * det // 2
         m['add_constant==values+c'] = add // 2
-        m['add_series==values+series'] = add // 2
+        m['add_series==values+series'] = 3 * add // 2
         m['add_series.rejects-length-mismatch'] = add // 2
-        m['add_signal==values+other.values'] = add // 2
+        m['add_series.argument-unchanged'] = 2 * add
+        m['add_signal==values+other.values'] = add
+        m['add_signal.argument-unchanged'] = 2 * add
         m['add_signal.rejects-length-mismatch'] = add // 2
         m['add_signal.rejects-dt-mismatch'] = add // 2
         m['add_signal.rejects-non-signal'] = add // 2
         m['runavg==mean-of-original-window'] = run // 2
         m['runavg.length+dt-preserved'] = run // 2
+        m['history.call==same-call-on-fresh-object'] = cnt['history'] * nsh * 2
+        for o in STATE_OPS:
+            m['state.first-result-unchanged-after-second-call.%s' % o] = st // (2 * len(STATE_OPS))
+        m['state.twin-object-unchanged'] = st // 2
+        m['state.caller-array-unchanged'] = st // 2
         out[tier] = m
     return out
 
